@@ -200,6 +200,29 @@ def model_cfg_tokens(deb, entry):
     raise ValueError(name)
 
 
+def rng_guards(deb):
+    """the guards of Model.Purity.rngSitesJ that the instance switches on; [] = the configuration is deterministic"""
+    from ibicus.utils import gen_PrecipitationGammaLeftCensoredModel, gen_PrecipitationHurdleModel
+
+    g = []
+    name = type(deb).__name__
+    if name == "CDFt" and deb.SSR:
+        g.append("cdftSSR")
+    if name == "ISIMIP":
+        if deb.impute_missing_values:
+            g.append("isimipImpute")
+        if deb.has_lower_bound and deb.has_lower_threshold:
+            g.append("isimipLower")
+        if deb.has_upper_bound and deb.has_upper_threshold:
+            g.append("isimipUpper")
+    dist = getattr(deb, "distribution", None)
+    if isinstance(dist, gen_PrecipitationHurdleModel) and dist.cdf_randomization:
+        g.append("hurdleRandomization")
+    if isinstance(dist, gen_PrecipitationGammaLeftCensoredModel):
+        g.append("censoredModel")
+    return g
+
+
 # ------------------------------------------------------------------ provenance probes (monkeypatched wrappers, no source change)
 class Recorder:
     def __init__(self):
@@ -384,13 +407,23 @@ def same_vars(a, b):
 class Inputs:
     """the caller's arrays for one call: bases (own the memory), views (what is passed), snapshots"""
 
-    def __init__(self, arrays, times, layout, entry):
-        self.bases, self.views = [], []
+    def __init__(self, arrays, times, layout, entry, masks=None):
+        self.bases, self.views, self.nd_views, self.masks = [], [], [], []
         lay = lay3 if entry == "apply" else lay1
-        for a in arrays:
+        for k, a in enumerate(arrays):
             b, v = lay(a, layout)
             self.bases.append(b)
-            self.views.append(v)
+            self.nd_views.append(v)
+            if masks is not None:
+                # a float masked array built on the caller's ndarray without copying: the data buffer is the caller's
+                m = masks[k].copy()
+                mv = np.ma.MaskedArray(v, mask=m, copy=False)
+                assert np.shares_memory(np.ma.getdata(mv), v)
+                self.masks.append(np.ma.getmaskarray(mv))
+                self.views.append(mv)
+            else:
+                self.views.append(v)
+        self.msnaps = [snapshot(m) for m in self.masks]
         self.tbases, self.tviews = [], []
         for t in times:
             if t is None:
@@ -401,12 +434,12 @@ class Inputs:
                 self.tbases.append(b)
                 self.tviews.append(v)
         self.snaps = [snapshot(b) for b in self.bases] + [None if b is None else snapshot(b) for b in self.tbases]
-        self.vsnaps = [snapshot(v) for v in self.views] + [None if v is None else snapshot(v) for v in self.tviews]
+        self.vsnaps = [snapshot(v) for v in self.nd_views] + [None if v is None else snapshot(v) for v in self.tviews]
 
     def readonly(self, flag=True):
         for b in self.bases + [t for t in self.tbases if t is not None]:
             b.flags.writeable = not flag
-        for v in self.views + [t for t in self.tviews if t is not None]:
+        for v in self.nd_views + [w for w in self.views if isinstance(w, np.ma.MaskedArray)] + [t for t in self.tviews if t is not None]:
             if v.flags.writeable == flag:
                 try:
                     v.flags.writeable = not flag
@@ -414,7 +447,8 @@ class Inputs:
                     pass
 
     def callers(self):
-        return self.views + self.tviews
+        """the memory the caller owns (for a masked array: its data buffer)"""
+        return self.nd_views + self.tviews
 
     def changed(self):
         out = []
@@ -425,17 +459,42 @@ class Inputs:
             why = same_snapshot(b, s)
             if why:
                 out.append(f"{CALLER_NAMES[k]}: {why}")
-        for k, (v, s) in enumerate(zip(self.views + self.tviews, self.vsnaps)):
+        for k, (v, s) in enumerate(zip(self.nd_views + self.tviews, self.vsnaps)):
             if v is None:
                 continue
             why = same_snapshot(v, s)
             if why and not any(o.startswith(CALLER_NAMES[k]) for o in out):
                 out.append(f"{CALLER_NAMES[k]} (view): {why}")
+        for k, (mv, m, ms) in enumerate(zip(self.views, self.masks, self.msnaps)):
+            why = same_snapshot(np.ma.getmaskarray(mv), ms) or same_snapshot(m, ms)
+            if why:
+                out.append(f"{CALLER_NAMES[k]} (mask of the masked array): {why}")
+            d = np.ma.getdata(mv)
+            why = same_snapshot(d, self.vsnaps[k]) if d.strides == self.vsnaps[k][3] else None
+            if why and not any(o.startswith(CALLER_NAMES[k]) for o in out):
+                out.append(f"{CALLER_NAMES[k]} (np.ma.getdata of the masked array): {why}")
         return out
 
 
+def rng_state_equal(a, b):
+    return a[0] == b[0] and np.array_equal(a[1], b[1]) and tuple(a[2:]) == tuple(b[2:])
+
+
+RNG_ADVANCED = []  # set by call(): did the last call change numpy's global generator state?
+
+
 def call(deb, inp, entry, seed):
-    np.random.seed(seed)
+    """seed=None: do not re-seed (deterministic configurations are repeated on whatever state the generator is in)"""
+    if seed is not None:
+        np.random.seed(seed)
+    st0 = np.random.get_state()
+    try:
+        return _call(deb, inp, entry)
+    finally:
+        RNG_ADVANCED.append(not rng_state_equal(st0, np.random.get_state()))
+
+
+def _call(deb, inp, entry):
     o, h, f = inp.views
     to, th, tf = inp.tviews
     kw = {}
@@ -448,7 +507,7 @@ def call(deb, inp, entry, seed):
         return deb.apply_location(o, h, f, **kw)
 
 
-def make_series(var, nprs, tier, entry, dtype, times_kind, conv=False):
+def make_series(var, nprs, tier, entry, dtype, times_kind, conv=False, ties=False):
     n_o = 730 if tier == "quick" else 1095
     extra = 1
     if var.endswith("@short"):
@@ -466,6 +525,8 @@ def make_series(var, nprs, tier, entry, dtype, times_kind, conv=False):
             a = np.stack(cols, axis=1).reshape(len(dates), *shape)
         else:
             a = gen_data(base, nprs, dates, sh)
+        if ties:  # repeated values inside every window (measurements rounded to one decimal / two significant digits)
+            a = np.round(a, 1) if base in ("tas", "hurs", "rsds") else np.where(a > 0, np.float64(1e-5) * np.round(a / 1e-5), a)
         if var.endswith("_nan"):
             a.ravel()[nprs.randint(0, a.size, 5)] = np.nan
         if conv:
@@ -484,22 +545,38 @@ def is_store_error(ex):
     return isinstance(ex, (ValueError, RuntimeError)) and "read-only" in msg and "buffer source" not in msg
 
 
-def protocol(name, var, factory, randomised, entry, layout, dtype, times, tier, rng, res, problems, mismatches, trace_jobs):
+def protocol(name, var, factory, randomised, entry, layout, dtype, times, tier, rng, res, problems, mismatches, trace_jobs, ties=False):
     """full purity / reuse protocol for one (configuration, entry, layout).  returns nothing; appends findings"""
     nprs = np.random.RandomState(rng.randint(0, 2**31 - 1))
     times_kind = "datetime64" if times == "datetime64" else "date"
     conv = (times == "conv")
-    arrs, dts = make_series(var, nprs, tier, entry, dtype, times_kind, conv=conv)
-    arrs2, _ = make_series(var, nprs, tier, entry, dtype, times_kind, conv=conv)
+    masked = (times == "masked") and entry == "apply"
+    arrs, dts = make_series(var, nprs, tier, entry, dtype, times_kind, conv=conv, ties=ties)
+    arrs2, _ = make_series(var, nprs, tier, entry, dtype, times_kind, conv=conv, ties=ties)
     tarr = [None, None, None] if times == "none" else dts
+    masks = None
+    if masked:  # float masked arrays with (usually) a few masked cells, built on the caller's ndarrays without copying
+        # NaN-tolerant configurations get masked cells (filled with NaN by the input check); the others an all-False mask.
+        # numpy: `filled` copies only if something is masked — otherwise it returns the data buffer itself (an alias)
+        frac = rng.choice([0.01, 0.03, 0.03, 0.0]) if name.startswith(NAN_OK) else 0.0
+        masks = [nprs.random_sample(a.shape) < frac for a in arrs]
+        if frac > 0:
+            for m in masks:
+                m.ravel()[nprs.randint(0, m.size)] = True
     seed = rng.randint(0, 2**31 - 1)
-    case = {"config": name, "entry": entry, "layout": layout, "dtype": str(np.dtype(dtype)) if not conv else "int64", "times": times, "np_seed": seed,
-            "verif_seed": C.seed(), "tier": tier}
     deb = factory()
+    guards = rng_guards(deb)
+    deterministic = not guards
+    # deterministic configurations are seeded once and then repeated on whatever state the generator is in;
+    # randomised ones are re-seeded before every compared call
+    reseed = None if deterministic else seed
+    case = {"config": name, "entry": entry, "layout": layout, "dtype": str(np.dtype(dtype)) if not conv else "int64", "times": times, "np_seed": seed,
+            "verif_seed": C.seed(), "tier": tier, "ties": bool(ties), "rng_guards": guards}
     s0, d0 = vars_snapshot(deb)
+    del RNG_ADVANCED[:]
 
     # ---- run 1: read-only inputs, provenance recorded
-    inp = Inputs(arrs, tarr, layout, entry)
+    inp = Inputs(arrs, tarr, layout, entry, masks=masks)
     inp.readonly(True)
     REC.items, REC.calls = set(), 0
     REC.callers = inp.callers()
@@ -523,10 +600,16 @@ def protocol(name, var, factory, randomised, entry, layout, dtype, times, tier, 
                 out1 = call(deb, inp, entry, seed)
             except Exception as ex2:  # noqa: BLE001
                 REC.active = False
-                res.notes.append(f"{name}/{entry}/{layout}: raises {type(ex2).__name__}: {str(ex2)[:80]} (configuration skipped)")
+                ch = inp.changed()
+                if ch:
+                    problems.append((f"{name}: caller arrays modified by {entry} (which then raised {type(ex2).__name__}): {ch}", {**case, "what": "input modified", "changed": ch}))
+                res.notes.append(f"{name}/{entry}/{layout}/{times}: raises {type(ex2).__name__}: {str(ex2)[:80]} (configuration skipped)")
                 return
         else:
-            res.notes.append(f"{name}/{entry}/{layout}: raises {type(ex).__name__}: {str(ex)[:80]} (configuration skipped)")
+            ch = inp.changed()
+            if ch:
+                problems.append((f"{name}: caller arrays modified by {entry} (which then raised {type(ex).__name__}): {ch}", {**case, "what": "input modified", "changed": ch}))
+            res.notes.append(f"{name}/{entry}/{layout}/{times}: raises {type(ex).__name__}: {str(ex)[:80]} (configuration skipped)")
             return
     finally:
         REC.active = False
@@ -550,8 +633,8 @@ def protocol(name, var, factory, randomised, entry, layout, dtype, times, tier, 
             problems.append((f"{name}: instance attributes changed by apply_location: {why}", {**case, "what": "instance state changed", "detail": why}))
 
     # ---- run 2: the same call again
-    inp_b = Inputs(arrs, tarr, layout, entry)
-    out2 = call(deb, inp_b, entry, seed)
+    inp_b = Inputs(arrs, tarr, layout, entry, masks=masks)
+    out2 = call(deb, inp_b, entry, reseed)
     # ---- an unrelated call (other data, other seed, possibly through the other entry point), then the first call again
     entry_c = rng.choice(["apply", "apply_location"])
     if entry_c == entry:
@@ -565,8 +648,8 @@ def protocol(name, var, factory, randomised, entry, layout, dtype, times, tier, 
         if is_store_error(ex):
             raise
         res.notes.append(f"{name}: unrelated {entry_c} call raised {type(ex).__name__}")
-    inp_d = Inputs(arrs, tarr, "C", entry)
-    out3 = call(deb, inp_d, entry, seed)
+    inp_d = Inputs(arrs, tarr, "C", entry, masks=masks)
+    out3 = call(deb, inp_d, entry, reseed)
     # ---- a settings excursion (apply re-derives): change the window length, call, change it back, call
     out5 = None
     if entry == "apply" and hasattr(deb, "running_window_length") and not conv:
@@ -575,22 +658,28 @@ def protocol(name, var, factory, randomised, entry, layout, dtype, times, tier, 
             deb.running_window_length = L0 + 30
             call(deb, Inputs(arrs2, tarr, "C", entry), entry, seed + 2)
             deb.running_window_length = L0
-            out5 = call(deb, Inputs(arrs, tarr, "C", entry), entry, seed)
+            out5 = call(deb, Inputs(arrs, tarr, "C", entry, masks=masks), entry, reseed)
         except Exception as ex:  # noqa: BLE001
             if is_store_error(ex):
                 raise
             deb.running_window_length, deb.running_window_step_length = L0, S0
             res.notes.append(f"{name}: settings excursion raised {type(ex).__name__}")
     # ---- a fresh instance
-    out4 = call(factory(), Inputs(arrs, tarr, "C", entry), entry, seed)
+    out4 = call(factory(), Inputs(arrs, tarr, "C", entry, masks=masks), entry, seed if not deterministic else seed + 11)
     s2, d2 = vars_snapshot(deb)
+    if deterministic and any(RNG_ADVANCED):
+        problems.append((f"{name}: a configuration without any random step (no guard of Model.Purity.rngSitesJ is on) advanced numpy's global generator "
+                         f"in {sum(RNG_ADVANCED)} of {len(RNG_ADVANCED)} calls", {**case, "what": "global generator consumed by a deterministic configuration"}))
+    res.extra["deterministic_cases"] = res.extra.get("deterministic_cases", 0) + int(deterministic)
+    res.extra["randomised_cases_that_drew"] = res.extra.get("randomised_cases_that_drew", 0) + int((not deterministic) and any(RNG_ADVANCED))
     if out5 is not None and not (out5.shape == out1.shape and out5.tobytes() == out1.tobytes()):
         mismatches.append({"op": "settings-excursion", "case": case, "impl": "output after changing running_window_length and changing it back differs",
                            "model": "Props.C12.output_depends_only_on"})
     for label, o in (("repeated call", out2), ("call after an unrelated call", out3), ("fresh instance", out4)):
         if not (isinstance(o, np.ndarray) and o.shape == out1.shape and o.dtype == out1.dtype and o.tobytes() == out1.tobytes()):
             nd = int((~((o == out1) | (np.isnan(o) & np.isnan(out1)))).sum()) if isinstance(o, np.ndarray) and o.shape == out1.shape else -1
-            problems.append((f"{name}: output of the {label} differs from the first call ({nd} values) under the same np.random.seed",
+            how = "without re-seeding (the configuration has no random step)" if deterministic else "under the same np.random.seed"
+            problems.append((f"{name}: output of the {label} differs from the first call ({nd} values) {how}",
                              {**case, "what": "not repeatable", "which": label}))
     for i2 in (inp_b, inp_c, inp_d):
         ch = i2.changed()
@@ -600,10 +689,11 @@ def protocol(name, var, factory, randomised, entry, layout, dtype, times, tier, 
     if why:
         problems.append((f"{name}: instance state drifts between calls: {why}", {**case, "what": "instance state changed", "detail": why}))
 
-    ent = ("apply:%d:%d" % (int(conv), int(times != "none"))) if entry == "apply" else ("loc:%d" % int(times != "none"))
+    copied = conv or (masked and all(m.any() for m in masks))  # astype copies; filled copies iff a cell is masked
+    ent = ("apply:%d:%d" % (int(copied), int(times != "none"))) if entry == "apply" else ("loc:%d" % int(times != "none"))
     trace_jobs.append((case, model_cfg_tokens(deb, ent), items))
     nz = int(np.isnan(out1).sum()) if np.issubdtype(out1.dtype, np.floating) else 0
-    res.count((name, entry, layout, case["dtype"], times), True,
+    res.count((name, entry, layout, case["dtype"], times, bool(ties)), True,
               sample={**case, "n_out": int(out1.size), "nan_out": nz, "probe_calls": REC.calls, "readonly": ro_note is None})
 
 
@@ -768,6 +858,10 @@ def qdm_sticky_probe(res):
 
 
 # ------------------------------------------------------------------ the check
+MASKED_ALWAYS = ("ls_tas", "dc_pr", "ls_pr_window", "isimip_prsnratio_impute")
+NAN_OK = ("ls_", "dc_", "isimip_prsnratio")
+
+
 def plan(rng, tier, cfgs, boost):
     """which (configuration, entry, layout, dtype, times) combinations this run exercises"""
     jobs = []
@@ -787,7 +881,9 @@ def plan(rng, tier, cfgs, boost):
                     times = "date"
                 if entry == "apply" and var == "tas" and rng.random() < 0.25:
                     times = "conv"  # integer input: converted by the input check
-                jobs.append((name, entry, layout, dtype, times))
+                if entry == "apply" and ((r == 0 and name in MASKED_ALWAYS) or rng.random() < 0.12):
+                    times = "masked"  # float masked arrays (filled with NaN by the input check); time arrays given
+                jobs.append((name, entry, layout, dtype, times, r % 2 == 1))
     return jobs
 
 
@@ -822,10 +918,10 @@ def run(tier, res, force_search=False):
     with probes_installed() as missing:
         for m in missing:
             mismatches.append({"op": "probe-install", "case": {}, "impl": f"modelled function {m} does not exist in the source", "model": "Model.Purity.Fn"})
-        for (name, entry, layout, dtype, times) in jobs:
+        for (name, entry, layout, dtype, times, ties) in jobs:
             var, factory, randomised = cfgs[name]
             try:
-                protocol(name, var, factory, randomised, entry, layout, dtype, times, tier, rng, res, problems, mismatches, trace_jobs)
+                protocol(name, var, factory, randomised, entry, layout, dtype, times, tier, rng, res, problems, mismatches, trace_jobs, ties=ties)
             except Exception as ex:  # noqa: BLE001
                 REC.active = False
                 if is_store_error(ex):
@@ -874,10 +970,10 @@ def run(tier, res, force_search=False):
     if (res.tie_broken and not problems and not boost):
         rng2 = random.Random(C.seed() * 15485863 + 99)
         with probes_installed():
-            for (name, entry, layout, dtype, times) in plan(rng2, tier, cfgs, True):
+            for (name, entry, layout, dtype, times, ties) in plan(rng2, tier, cfgs, True):
                 var, factory, randomised = cfgs[name]
                 try:
-                    protocol(name, var, factory, randomised, entry, layout, dtype, times, tier, rng2, res, problems, [], [])
+                    protocol(name, var, factory, randomised, entry, layout, dtype, times, tier, rng2, res, problems, [], [], ties=ties)
                 except Exception as ex:  # noqa: BLE001
                     REC.active = False
                     if is_store_error(ex):
@@ -924,7 +1020,8 @@ def replay(data):
             for layout in ([fi["layout"]] if "layout" in fi else ["C"]):
                 dt = np.float32 if fi.get("dtype") == "float32" else np.float64
                 for _ in range(3):
-                    protocol(name, var, factory, randomised, entry, layout, dt, fi.get("times", "date"), fi.get("tier", "quick"), rng, res, problems, [], [])
+                    protocol(name, var, factory, randomised, entry, layout, dt, fi.get("times", "date"), fi.get("tier", "quick"), rng, res, problems, [], [],
+                             ties=bool(fi.get("ties", False)))
     for desc, case in problems[:5]:
         print("REPRODUCED:", desc[:200])
     print("replay:", "violation reproduced" if problems else "not reproduced")
